@@ -220,6 +220,10 @@ for opn, nm in ((0, 'union'), (1, 'intersection'), (2, 'difference'), (3, 'compl
       desc='%s (real operations/%s.cc: constructor flags + terminal cases of _compute): operands 0 / true / non-terminal, same or different forests, every reduction-rule combination '
            '(sets: fully, quasi; relations: fully, quasi, identity), level L in [-3,3], any incoming index; judged pointwise under the rules\' semantics of skipped levels; recursion cut' % (nm, nm))
 
+J('C04', 'c04_cross', 'c04_cross.cc', 'c04_cross', units=['edge_value.cc', 'ct_entry_type.cc', 'compute_table.cc', 'node_headers.cc', 'arrays.cc', 'memstats.cc', 'statset.cc', 'error.cc'],
+  gxx_units=['ALL'], gxx_exclude=['operations/cross.cc'], gxx_extra=['-Wl,--allow-multiple-definition'], unwind=10, timeout=1500, covers=[1, 2, 3],
+  desc='cross product (real operations/cross.cc, real constructor): one step of compute_un / compute_pr at level k in [0,3] with operands 0 / true / nodes whose handle numbers name nodes at independently chosen levels in the two operand forests (same or distinct): terminal answers, and an operand is unpacked as a stored node only at the level it has in its own forest, expanded redundantly only above it; what is done with the unpacked nodes is cut')
+
 # ---------------------------------------------------------------- C11 (L1: cardinality of the functions an edge denotes without a node)
 for rt, nm in ((0, 'int'), (1, 'real')):
     for rel, rule, kn in ((0, 0, 'set_fully'), (0, 1, 'set_quasi'), (1, 0, 'rel_fully'), (1, 1, 'rel_quasi'), (1, 2, 'rel_ident')):
